@@ -317,8 +317,9 @@ def serialize_to_xml(elements: Iterable[Any],
             ck = etree_module.tostring(elem, encoding='utf-8', method=method)
             chunks.append(ck.decode('utf-8').rstrip(elem.tail))
         else:
-            if cks and cks[0].startswith(b'<?'):
-                cks[0] = cks[0].replace(b'\'', b'"')
+            if cks and cks[0].startswith(b'<?xml'):
+                head, sep, rest = cks[0].partition(b'?>')
+                cks[0] = head.replace(b'\'', b'"') + sep + rest
             chunks.append(b''.join(cks).decode('utf-8').rstrip(elem.tail))
 
     if not character_map:
